@@ -68,6 +68,7 @@ type Exec struct {
 	C     *Contract
 	Props []string
 	curNode *node // top-level node being executed
+	uncapturedVals map[string]Value
 
 	assumes  []Assumption
 	assumeIx map[[2]*Term]bool
